@@ -1,7 +1,7 @@
 """Iterator models (std::iter over concrete-length sequences) and pulp::Simd lane models."""
 import re
 import z3
-from .vm import (Struct, Enum, Seq, Ref, SliceRef, Iter, Closure, Opaque, FnItem, UNIT, NONE, SOME, OK, ERR, ret, panic, is_sym, VMError, Unmodelled, _prod)
+from .vm import (Struct, Enum, Seq, Ref, SliceRef, Iter, Closure, Opaque, FnItem, Str, UNIT, NONE, SOME, OK, ERR, ret, panic, is_sym, VMError, Unmodelled, _prod)
 from .alg import Fl
 from .intrinsics import slice_refs, as_slice, deref_val, slice_items
 
@@ -52,8 +52,20 @@ def pull(vm, m, it, k):
         outs = nxt
     return outs
 
+def _is_lazy(vm, m, v):
+    from .liter import LIter
+    n = 0
+    while isinstance(v, Ref) and n < 4:
+        try: v = vm.read_at(m, v.cell, v.path)
+        except Exception: return False
+        n += 1
+    return isinstance(v, LIter)
+
 def dispatch(vm, m, c, args):
-    if c.endswith(' as IntoIterator>::into_iter'): return ret(m, to_iter(vm, m, args[0]))
+    if args and any(_is_lazy(vm, m, a) for a in args[:2]): return NotImplemented      # iterators of the general engine (liter.py)
+    if c.endswith(' as IntoIterator>::into_iter'):
+        try: return ret(m, to_iter(vm, m, args[0]))
+        except VMError: return NotImplemented
     mm = re.search(r' as Iterator>::(\w+)(?:::<.*>)?$', c)
     if mm is None and c.endswith(' as Itertools>::collect_vec'): mm = re.search(r'(collect)_vec$', c)
     if mm:
@@ -77,22 +89,7 @@ def dispatch(vm, m, c, args):
             it = to_iter(vm, m, args[0])
             if it.stages: raise Unmodelled('rev of mapped iterator')
             return ret(m, Iter(tuple(reversed(it.items))))
-        if n == 'flat_map':
-            # the closure's results are flattened: Result / Option contribute their payload or nothing, sequences contribute their items
-            it = to_iter(vm, m, args[0]); ms = [(m, [])]
-            for k in range(len(it.items)):
-                nxt = []
-                for (m1, acc) in ms:
-                    for (m2, kind, v) in pull(vm, m1, it, k):
-                        if kind != 'ret': return [(m2, kind, v)]
-                        if v is SKIP: nxt.append((m2, acc)); continue
-                        for (m3, kind3, r) in vm.call_closure(m2, args[1], [v]):
-                            if kind3 != 'ret': return [(m3, kind3, r)]
-                            if isinstance(r, Enum) and r.name in ('Ok', 'Some'): nxt.append((m3, acc + [r.f[0]]))
-                            elif isinstance(r, Enum) and r.name in ('Err', 'None'): nxt.append((m3, acc))
-                            else: nxt.append((m3, acc + list(to_iter(vm, m3, r).items)))
-                ms = nxt
-            return [(m1, 'ret', Iter(acc)) for (m1, acc) in ms]
+        if n == 'flat_map': return NotImplemented      # general engine (liter.py): map + flatten, lazily
         if n == 'try_for_each':
             # stops at the first Err / None the closure returns and hands it back; Ok(()) / Some(()) when every item was accepted
             it = to_iter(vm, m, args[0]); live = [m]; done = []
@@ -132,6 +129,7 @@ def dispatch(vm, m, c, args):
                 st = tuple((s[0], s[1] + 1) if s[0] == 'enumerate' else s for s in it.stages)
                 vm.write_at(m2, r.cell, list(r.path), Iter(it.items[1:], st)); outs.append((m2, 'ret', SOME(v)))
             return outs
+        if n == 'collect' and re.search(r'collect::<(?:std::result::|core::result::|std::option::|core::option::)?(?:Result|Option)<', c): return NotImplemented   # short-circuiting targets: liter.py
         if n == 'collect' or n == 'sum' or n == 'all' or n == 'any' or n == 'fold' or n == 'count':
             it = to_iter(vm, m, args[0]); outs = [(m, [])]
             for k in range(len(it.items)):
@@ -152,6 +150,7 @@ def dispatch(vm, m, c, args):
                         else: pairs.append(Struct((k, v.f[1])))
                     from .intrinsics import hm_new
                     res.append((m1, 'ret', hm_new(vm, pairs)))
+                elif n == 'collect' and re.search(r'collect::<(std::collections::)?HashSet<', c) and vals and not isinstance(deref_val(vm, m1, vals[0]), Str): return NotImplemented
                 elif n == 'collect' and re.search(r'collect::<(std::collections::)?HashSet<', c):
                     seen = []
                     for v in vals:
